@@ -9,7 +9,7 @@ from __future__ import annotations
 from fractions import Fraction
 from typing import Any, Dict, List
 
-from .. import drive_api, gen, model
+from .. import drive_api, e2e, gen, model
 from ..engine_common import engine_case, history_classes
 from ..runner import Outcome
 
@@ -32,7 +32,7 @@ REL = Fraction(1, 10**20)
 
 
 def budget(tier: str) -> Dict[str, Any]:
-    return {"shards": 16, "examples": 1500 if tier == "quick" else 20000}
+    return {"shards": 16, "examples": 1500 if tier == "quick" else 20000, "examples2": 8 if tier == "quick" else 150}
 
 
 def strategy(tier: str) -> Any:
@@ -102,7 +102,22 @@ def taxable_set_violations(out: Outcome, txs: List[model.Tx], dump: Dict[str, An
                 return
 
 
+E2E_HIST = gen.GenCfg(min_steps=5, max_steps=16, max_exchanges=2, max_holders=2, force_type_cycle=True, bulk_prob=0.03)
+
+
+def strategy2(tier: str) -> Any:
+    """End-to-end tier (rp2v/e2e.py): multi-asset files through the console entry point; the same predicate is applied to
+    figures read back from rp2_full_report.ods and related to the generated rows by unique id."""
+    return e2e.file_strategy(E2E_HIST, countries=("us", "generic", "ie", "jp"), force_all_types=True)
+
+
+def minimize(case: Dict[str, Any], clause: str) -> Dict[str, Any]:
+    return e2e.minimize(case, clause, evaluate) if case.get("e2e") else case
+
+
 def evaluate(case: Dict[str, Any]) -> Outcome:
+    if case.get("e2e"):
+        return e2e.evaluate_assets(case, "c03e", lambda out, asset, txs, dump, schedule: taxable_set_violations(out, txs, dump))
     out = Outcome()
     txs = model.make_txs(case["rows"])
     out.classes |= history_classes(txs, case["schedule"])
